@@ -169,7 +169,7 @@ impl DerivedTS {
                     type WithoutGenerics = #generics;
                     type OptionInnerType = Self;
                     fn name() -> String { #ts_names.to_owned() }
-                    fn inline() -> String { panic!("{} cannot be inlined", #name) }
+                    fn inline() -> String { #name }
                     fn inline_flattened() -> String { #name }
                     fn decl() -> String { panic!("{} cannot be declared", #name) }
                     fn decl_concrete() -> String { panic!("{} cannot be declared", #name) }
